@@ -70,6 +70,12 @@ func PeerList.Take
 func PeerList.Append
   modifies l.L
 
+// publishing hands the message to the bus subscribers (ghost bookkeeping of what was published)
+func MessageBus.Publish
+  requires msg != nil
+  modifies everything, publishCount, lastPublishedTTL, lastPublishedBatch
+  assumes publishCount == old(publishCount) + 1 && lastPublishedTTL == old(msg.TTL) && lastPublishedBatch == (old(msg.Kind) == BatchMessageType)
+
 // encoding reads the message and allocates the wire form
 func Message.Encode
 
